@@ -125,6 +125,30 @@ def strat_alloc(draw, tier, ends_only=False):
                 per_chip[c][r].append(s)
                 reservations.append({"res": r, "start": s[0], "stop": s[1],
                                      "loc": list(c)})
+    if draw(st.integers(0, 2)) == 0:
+        # null reservations (slice(a, a); the repository's tests pass
+        # slice(0, 0)): they reserve nothing. They sit where another
+        # reservation of the resource starts or ends, or at the ends of the
+        # range (anywhere when reservations are not confined to the ends)
+        for _ in range(draw(st.integers(1, 3))):
+            r = draw(st.sampled_from(names))
+            loc = draw(st.sampled_from([None] + used_chips))
+            applying = [t for t in reservations if t["res"] == r and
+                        (t["loc"] is None or (loc is not None and
+                                              tuple(t["loc"]) == tuple(loc)))]
+            here = [x for t in applying for x in (t["start"], t["stop"])
+                    if x <= mincap[r]]
+            spots = sorted(set(here + [0])) if ends_only else \
+                sorted(set(here + [0, mincap[r]] +
+                           list(range(0, mincap[r] + 1))))
+            if ends_only:
+                # only the start of a prefix piece / end of a suffix piece
+                # are certainly outside every request
+                spots = [x for x in spots if x == 0 or any(
+                    t["start"] == x for t in applying)]
+            a = draw(st.sampled_from(spots))
+            reservations.append({"res": r, "start": a, "stop": a,
+                                 "loc": None if loc is None else list(loc)})
     reservations = draw(st.permutations(reservations))
     # vertices, feasible by construction
     vertices = []
@@ -293,6 +317,9 @@ def check_alloc(case):
             nt = True
     return {"nontrivial": nt,
             "classes": (["aligned"] if case["align"] else []) +
+                       (["null-reservation"] if any(
+                           t["start"] == t["stop"]
+                           for t in case["reservations"]) else []) +
                        ["ends-only" if case["ends_only"] else "free-layout"]}
 
 
